@@ -719,3 +719,35 @@ def r5_same_representation(ctx, F):
                         bad='the setters of osu.%s store `%s` but those of %sPerformance.%s store `%s`, and TryFrom<OsuPerformance> copies the field verbatim: a value set before try_mode(%s) '
                             'means something else than the same value set afterwards' % (sf, sorted(va), CAP[mode], tf, sorted(vb), MODE_VARIANT[mode]))
     ctx.floor('C07-R5', n, 9, 'forwarded fields with dedicated setters on both sides')
+
+
+# ---- shared rule: no read of the converted map before its preprocessing is complete (seed C12-8: `n_objects` taken of the object list before Invert rewrites it)
+def no_stale_map_reads(ctx, F, rule, methods=('difficulty', 'strains', 'gradual_difficulty')):
+    """The mode entries convert the map and then rewrite it in place for mods that change the object list (HoldOff, Invert, Random).  Whatever the entry reads off
+    the map — object count, key count, attributes — must be read AFTER the last rewrite that can still happen: a `Cow::deref` of the converted map from which a
+    preprocessor call is still reachable hands out a value of the map as it was, not as it is calculated on."""
+    n = npre = 0
+    for mode in MODES:
+        for m in methods:
+            e = entries.Entry(F, mode, m)
+            if e.work is None:
+                continue
+            fn = e.work
+            n += 1
+            pre = [(p_, bi) for p_, gs, f_, bi in e.preprocessors if f_.path == fn.path]
+            npre += len(pre)
+            if not pre:
+                continue
+            ctx.saw(fn)
+            stale = []
+            for bi, t in fn.calls():
+                cp = t['func'].get('path') or ''
+                if cp.endswith('as std::ops::Deref>::deref') and 'Cow' in cp:
+                    later = sorted(set(p_.split('::')[-1] for p_, pb in pre if pb != bi and pb in fn.cfg.reachable_from(bi)))
+                    if later:
+                        stale.append((t.get('ln'), later))
+            ctx.require(not stale, rule, 'fresh-reads:%s:%s' % (mode, m), '%s reads the converted map only after its %d rewrite(s)' % (fn.path, len(pre)), fn.where(),
+                        bad='%s reads the converted map at line %s although %s can still rewrite it afterwards: the value (an object count, a key count ..) describes the map '
+                            'before the mods were applied, while the calculation runs on the map after them' % (
+                                fn.path, ', '.join(str(x[0]) for x in stale), ' / '.join(sorted(set(y for x in stale for y in x[1])))))
+    ctx.floor(rule, npre, 3, 'in-place rewrites of the converted map in the mode entries (taiko 3 x 1, mania 3 x 3 today)')
